@@ -25,6 +25,34 @@ def harness_dirs(*ds):
     return hs + list(ds)
 
 
+# Interleavings of two or three live iterators (1-based iterator numbers; an iterator is created - Pick -
+# at its first mention, after the schedule every iterator is drained): a query that is retried on its next
+# host while other queries for the same partition are picked.
+IL_SCHEDULES = [
+    (2, [1, 2, 1]), (2, [1, 1, 2, 1, 2]), (2, [1, 2, 2, 1]), (2, [2, 1, 2, 1, 1]), (2, [1, 1, 1, 2]),
+    (3, [1, 2, 3, 1, 2, 3]), (3, [1, 2, 1, 3, 1]), (3, [1, 2, 3, 3, 2, 1]), (3, [1, 1, 2, 3, 1, 2]),
+]
+
+
+def interleaved_for(case, seed, every):
+    """The interleaved group (input only: routing tokens and schedule) attached to a case, or []."""
+    w, i = case["w"], case["id"]
+    if not w["ta"] or (i + seed) % every:
+        return []
+    toks = [g["q"] for g in case["groups"] if g["q"] >= 0]
+    if not toks:
+        return []
+    k = (i // every + seed)
+    n, sched = IL_SCHEDULES[k % len(IL_SCHEDULES)]
+    q = toks[(k // len(IL_SCHEDULES)) % len(toks)]
+    qs = [q] * n
+    if k % 5 == 0:
+        qs[-1] = toks[(k // 7) % len(toks)]      # the last query may be for another token ...
+    elif k % 11 == 0:
+        qs[-1] = -1                              # ... or have no routing key
+    return [dict(qs=qs, sched=sched)]
+
+
 def polcfg(w):
     return w["pol"] + ("-ta" if w["ta"] else "") + ("-shuffle" if w["shuffle"] else "") + ("-nonlocal" if w["nonlocal"] else "")
 
@@ -35,7 +63,8 @@ def keys_of(v, vec):
     cfg = polcfg(w)
     out = []
     if v["pclass"] != "none":
-        where = ("call %d of the history (%s)" % (v["pat"], vec["hist"][v["pat"] - 1]["op"])) if v["pat"] else "Pick / NextHost"
+        where = ("call %d of the history (%s)" % (v["pat"], vec["hist"][v["pat"] - 1]["op"])) if v["pat"] else (
+            "Pick / NextHost of interleaved iterators" if v.get("pil") else "Pick / NextHost")
         if v["pclass"] == "mapsize" and v["absentdc"]:
             out.append(("inherited-c10-panic", "panic in %s: %s" % (where, vec["pmsg"])))
         elif v["pclass"] == "mapsize":
@@ -44,6 +73,14 @@ def keys_of(v, vec):
             out.append((cfg + ":panic-pick-empty-ring", "panic in %s with an empty token ring: %s" % (where, vec["pmsg"])))
         else:
             out.append((cfg + ":panic-" + v["pclass"], "panic in %s: %s" % (where, vec["pmsg"])))
+    for g in v.get("ilbad", []):
+        j = g["firstbad"]
+        desc = "interleaved iterators for routing tokens %s, schedule %s: offered %s%s; stored replica list before %s / after %s, Cassandra %s" % (
+            g["qs"], g["sched"], g["seqs"], (" (iterator %d fails)" % j) if j else "", g["rep0"], g["rep1"], g["placement"])
+        for k in sorted(g["kinds"]):
+            out.append((cfg + ":interleaved-" + k, desc))
+        for k in sorted(g["stored"]):
+            out.append((cfg + ":stored-replicas-" + k, desc))
     for g in v["bad"]:
         kinds = set(g["kinds"])
         desc = "routing token %s: offered %s; up replicas near=%s far=%s (reference %s); predicted %s" % (
@@ -102,8 +139,9 @@ def replay(ctx):
     vecs = [v["detail"]["vector"] for v in rep.get("violations", []) if isinstance(v.get("detail"), dict) and "vector" in v["detail"]]
     if not vecs:
         raise vf.Inconclusive("no vectors in %s" % ctx.replay)
-    cases = [dict(id=i + 1, w=v["w"], hist=v["hist"], groups=[dict(q=g["q"], k=g["k"]) for g in v["groups"]] or [dict(q=-1, k=2)])
-             for i, v in enumerate(vecs)]
+    cases = [dict(id=i + 1, w=v["w"], hist=v["hist"],
+                  groups=[dict(q=g["q"], k=g["k"]) for g in v["groups"]] or ([] if v.get("il") else [dict(q=-1, k=2)]),
+                  il=[dict(qs=g["qs"], sched=g["sched"]) for g in v.get("il", [])]) for i, v in enumerate(vecs)]
     cp, rp = os.path.join(ctx.tmp, "pcases.ndjson"), os.path.join(ctx.tmp, "presults.ndjson")
     vf.write_ndjson(cp, cases)
     binary = vf.build_gotest(ctx, ".", harness_dirs("c10", "c11"))
@@ -146,8 +184,9 @@ def run(ctx):
     for i, c in enumerate(cases):
         c["id"] = i + 1
     cp = os.path.join(ctx.tmp, "pcases.ndjson")
-    vf.write_ndjson(cp, [dict(id=c["id"], w=c["w"], hist=c["hist"], groups=[dict(q=g["q"], k=g["k"]) for g in c["groups"]])
-                         for c in cases])
+    il_every = 8 if quick else 4
+    vf.write_ndjson(cp, [dict(id=c["id"], w=c["w"], hist=c["hist"], groups=[dict(q=g["q"], k=g["k"]) for g in c["groups"]],
+                              il=interleaved_for(c, ctx.seed, il_every)) for c in cases])
     ncases = len(cases)
     npicks_pred = sum(g["k"] for c in cases for g in c["groups"])
     cfgs = {polcfg(c["w"]) for c in cases}
@@ -168,13 +207,20 @@ def run(ctx):
 
     # ---- 3. exact agreement with the prediction, else TLC judges the real sequences
     agree, differ, sampled, picks_real = 0, [], [], 0
+    n_il, iters_il, ilvecs = 0, 0, []
     with open(rp) as f:
         for n, line in enumerate(f):
             vec = json.loads(line)
             picks_real += sum(len(g["picks"]) for g in vec["groups"])
             same = vec["pclass"] == "none" and len(vec["groups"]) == len(exp[vec["id"]]) and all(
                 g["picks"] == e and not any(g["capped"]) for g, e in zip(vec["groups"], exp[vec["id"]]))
-            if same:
+            if same and vec["il"]:
+                # interleaved iterators have no predicted sequence: TLC judges them (the sequential groups,
+                # identical to the prediction, need not be judged again)
+                n_il += 1
+                iters_il += sum(len(g["qs"]) for g in vec["il"])
+                ilvecs.append(dict(vec, groups=[]))
+            elif same:
                 agree += 1
                 if n % (53 if quick else 211) == 0:
                     sampled.append(vec)
@@ -182,7 +228,8 @@ def run(ctx):
                 differ.append(vec)
     ctx.log("real policies: %d cases, %d picks drained; exact agreement %d, judged by TLC %d (+%d agreeing as binding sample)" % (
         ncases, picks_real, agree, len(differ), len(sampled)))
-    vecs = differ + sampled
+    ctx.log("interleaved iterators: %d cases, %d iterators" % (n_il + sum(1 for v in differ if v["il"]), iters_il))
+    vecs = differ + sampled + ilvecs
     byid = {v["id"]: v for v in vecs}
     viol, drift, tr1 = validate(ctx, "cases", vecs, 900 if quick else 2400)
     agreeing = {v["id"] for v in sampled}
@@ -258,7 +305,7 @@ def run(ctx):
         traces_validated_against_impl=ncases + len(rvecs) + len(srecs),
         exhaustive=True, generator_cfg=cfg,
         enumerated_cases=ncases, policy_option_combinations=len(cfgs), picks_predicted=npicks_pred, picks_drained=picks_real,
-        exact_agreement=agree, judged_by_tlc_predicates=len(vecs), accepted_with_other_replica_order=other_order - len(drift),
+        exact_agreement=agree, interleaved_cases=n_il, interleaved_iterators=iters_il, judged_by_tlc_predicates=len(vecs), accepted_with_other_replica_order=other_order - len(drift),
         drift_vectors=len(drift) + len(rdrift),
         random_pick_points=len(rvecs), random_failing=len(rviol),
         concurrent_rounds=len(srecs), concurrent_picks=sum(r["picks"] for r in srecs),
